@@ -48,9 +48,17 @@ func HarnessCodecID() {
 		return
 	}
 	m := &model{}
-	vrt.Assert("C12.custom-append-ok", appendN(e, m, 1, 2, 1) == nil)
-	vrt.Quiesce()
-	vrt.Assert("C12.custom-append-ok", appendN(e, m, 1, 1, 0) == nil)
+	switch vrt.Choice("layout", 3) {
+	case 0: // a sealed segment and a tail holding one entry
+		vrt.Assert("C12.custom-append-ok", appendN(e, m, 1, 2, 1) == nil)
+		vrt.Quiesce()
+		vrt.Assert("C12.custom-append-ok", appendN(e, m, 1, 1, 0) == nil)
+	case 1: // nothing but the unsealed tail (a log that has not rotated yet)
+		vrt.Assert("C12.custom-append-ok", appendN(e, m, 1, 1, 1) == nil)
+		vrt.Reach("tail-only")
+	case 2: // nothing but an empty tail
+		vrt.Reach("empty-tail-only")
+	}
 	vrt.Assert("C12.close-ok", e.L.Close() == nil)
 	err = e.openCodec(&idCodec{id: id})
 	vrt.Assert("C12.custom-reopen-ok", err == nil)
